@@ -27,6 +27,9 @@ var lastViolations []string
 
 func loadMutants(prop string) ([]Mutant, error) {
 	dir := filepath.Join(verifRoot, "selftest", "mutants", prop)
+	if d := os.Getenv("GOWP_MUTANT_DIR"); d != "" {
+		dir = filepath.Join(d, prop)
+	}
 	ents, err := os.ReadDir(dir)
 	if err != nil {
 		return nil, nil
